@@ -6,6 +6,14 @@ COMMON_TRUSTED = [
     "harness + hooks (verif_hooks*.go) and the canonicaliser of the line protocol",
 ]
 
+INJECT_RULE = ("sessions of Add/Remove/WatchList (all path spellings, valid and malformed paths, symlinks, hard links, "
+               "retargeted links, deleted+recreated files) interleaved with synthetic inotify datagrams (1..30 records per "
+               "read; masks: every meaningful bit and combinations; wd: listed / removed / never issued / -1; cookies: 0, "
+               "fresh, matching, repeated; names of 1..255 bytes at every padding residue, over-padded, unpadded, interior "
+               "NUL) fed to the unmodified readEvents through a SOCK_SEQPACKET pair; hand-picked corpus histories first; "
+               "every answer (return class, event sequence, error sequence, both tables, cookie ring) compared with the "
+               "compiled Lean model. distinct = distinct (op kind, answer) pairs")
+
 PROPS = {
     "C15": {
         "lean": ["FsnVerif.Props.C15"],
@@ -15,6 +23,43 @@ PROPS = {
                 "32-bit masks; AddWith for all 2^9 op subsets x noFollow against the real kernel (stored flags and "
                 "/proc/self/fdinfo mask); xSupports for all 2^9 subsets. distinct = distinct (op kind, answer) pairs",
         "assumptions": ["kqueue / Windows / FEN translators are tied by regeneration + proof only (they cannot run on Linux)"],
+    },
+    "C01": {
+        "lean": ["FsnVerif.Props.C01"],
+        "lean_support": ["FsnVerif.Proofs.DecodeLemmas", "FsnVerif.Proofs.InotifyLemmas", "FsnVerif.Model.Inotify", "FsnVerif.Model.Decode"],
+        "stages": [{"name": "inject", "cmd": "inject", "what": "C01", "sessions": True}],
+        "rule": INJECT_RULE,
+        "assumptions": ["kernel raises a record for every change (K-live) and delivers them FIFO (K2): validated by tee/live monitors, not proved",
+                        "Go channel semantics behind sendEvent (modelled in Model/Proto)"],
+    },
+    "C02": {
+        "lean": ["FsnVerif.Props.C02"],
+        "lean_support": ["FsnVerif.Proofs.InotifyLemmas", "FsnVerif.Proofs.ALLemmas", "FsnVerif.Model.Inotify"],
+        "stages": [{"name": "inject", "cmd": "inject", "what": "C02", "sessions": True}],
+        "rule": INJECT_RULE,
+        "assumptions": ["K1 (a wd is not reissued while stale records for it are queued), K2/K3 (nothing but IN_IGNORED after rm_watch)"],
+    },
+    "C03": {
+        "lean": ["FsnVerif.Props.C03"],
+        "lean_support": ["FsnVerif.Proofs.InotifyLemmas", "FsnVerif.Proofs.RingLemmas", "FsnVerif.Model.Inotify"],
+        "stages": [{"name": "inject", "cmd": "inject", "what": "C03", "sessions": True}],
+        "rule": INJECT_RULE,
+        "assumptions": ["kernel queue order (K2); Go channel FIFO (language specification)"],
+    },
+    "C08": {
+        "lean": ["FsnVerif.Props.C08"],
+        "lean_support": ["FsnVerif.Proofs.InotifyLemmas", "FsnVerif.Proofs.ALLemmas", "FsnVerif.Proofs.DecodeLemmas", "FsnVerif.Model.Path"],
+        "stages": [{"name": "inject", "cmd": "inject", "what": "C08", "sessions": True},
+                   {"name": "path", "cmd": "pure", "what": "path"}],
+        "rule": INJECT_RULE + "; filepath.Clean/Dir/Base/recursivePath vs the Lean model exhaustively over {a . /}^<=7 (9 thorough) and random wide paths",
+        "assumptions": ["filepath.Clean/Dir/Base are standard library: modelled in Lean and validated differentially, not proved"],
+    },
+    "C11": {
+        "lean": ["FsnVerif.Props.C11"],
+        "lean_support": ["FsnVerif.Proofs.RingLemmas", "FsnVerif.Proofs.InotifyLemmas", "FsnVerif.Model.Inotify"],
+        "stages": [{"name": "inject", "cmd": "inject", "what": "C11", "sessions": True}],
+        "rule": INJECT_RULE,
+        "assumptions": ["K5: rename cookies are non-zero and pairwise distinct within any window of 2^32 renames"],
     },
     "C16": {
         "lean": ["FsnVerif.Props.C16"],
@@ -26,6 +71,118 @@ PROPS = {
         "assumptions": ["Go's %q (strconv.Quote) and %-13s are parameters of the model, instantiated by the harness"],
     },
 }
+
+
+
+# ---------------------------------------------------------------------------
+# Comparison of implementation and model answers.
+#
+# Stateful stages (sessions of ops on one Watcher) produce lines
+#   "<seq> R <ret> | E <events> | X <errors> | W <wd table> | P <path table> | C <ring>"
+# A property only owns some of these fields. Within a session only the FIRST line on which the
+# two sides differ is examined (after it the states have diverged and nothing can be attributed);
+# it counts for property P iff P's projection of that line differs.
+
+def _fields(line):
+    parts = line.split(" | ")
+    d = {}
+    for p in parts:
+        p = p.strip()
+        # the first part carries the sequence number
+        toks = p.split(" ", 2) if p[:1].isdigit() else None
+        if toks and len(toks) >= 2 and toks[0].isdigit():
+            key, val = toks[1], (toks[2] if len(toks) > 2 else "")
+        else:
+            kv = p.split(" ", 1)
+            key, val = kv[0], (kv[1] if len(kv) > 1 else "")
+        d[key] = val
+    return d
+
+
+def _events(f):
+    evs = [e for e in f.get("E", "").split(",") if e]
+    return [tuple(e.split(":")) for e in evs]     # (name, op, renamedFrom)
+
+
+def _ms(xs):
+    return sorted(xs)
+
+
+def _sub(a, b):
+    """multiset difference a - b"""
+    b = list(b)
+    out = []
+    for x in a:
+        if x in b:
+            b.remove(x)
+        else:
+            out.append(x)
+    return out
+
+
+def differs(pid, impl, model):
+    fi, fm = _fields(impl), _fields(model)
+    ei, em = _events(fi), _events(fm)
+    ops_i, ops_m = [e[1] for e in ei], [e[1] for e in em]
+    nameop_i, nameop_m = [(e[0], e[1]) for e in ei], [(e[0], e[1]) for e in em]
+    if pid == "C01":   # lost: an operation the model reports is missing (or an overflow is not announced)
+        return bool(_sub(ops_m, ops_i)) or fi.get("X", "").count("ErrEventOverflow") < fm.get("X", "").count("ErrEventOverflow")
+    if pid == "C02":   # phantom: the implementation reports an operation the model does not
+        return bool(_sub(ops_i, ops_m))
+    if pid == "C03":   # order: same multiset of (name, op), different sequence; or a rename pair torn apart
+        if sorted(nameop_i) == sorted(nameop_m) and nameop_i != nameop_m:
+            return True
+
+        def adjacent_pairs(ev):   # Creates carrying an old name that directly follow the Rename of that name
+            out = set()
+            for k, e in enumerate(ev):
+                if len(e) > 2 and e[2] not in ("", "-") and k > 0 and ev[k - 1][0] == e[2] and int(ev[k - 1][1], 16) & 0x8:
+                    out.add((e[0], e[2]))
+            return out
+        carried_i = {(e[0], e[2]) for e in ei if len(e) > 2 and e[2] not in ("", "-")}
+        return bool((adjacent_pairs(em) & carried_i) - adjacent_pairs(ei))
+    if pid == "C08":   # names: same operations, different spelling
+        return sorted(ops_i) == sorted(ops_m) and sorted(nameop_i) != sorted(nameop_m)
+    if pid == "C11":   # rename correlation: same events, different old names or ring contents
+        return nameop_i == nameop_m and ([e[2:] for e in ei] != [e[2:] for e in em] or fi.get("C") != fm.get("C"))
+    if pid == "C10":
+        return fi.get("X", "") != fm.get("X", "")
+    if pid in ("C04", "C09"):
+        return (fi.get("R"), fi.get("L"), fi.get("P")) != (fm.get("R"), fm.get("L"), fm.get("P"))
+    if pid == "C12":
+        return (fi.get("W"), fi.get("P")) != (fm.get("W"), fm.get("P"))
+    return impl != model
+
+
+def compare(pid, stage, ops, impl, model):
+    """returns (disagreements, number of session divergences owned by other properties)"""
+    out, other = [], 0
+    if len(impl) != len(model):
+        # the harness died in the middle of an op (panic in a library goroutine): the op it was
+        # executing is the failing input
+        n = min(len([x for x in impl if x]), len([x for x in model if x]))
+        crashed = ops[n] if n < len(ops) else "(unknown)"
+        out.append({"op": crashed, "impl": "(process died while executing this op)", "model": model[n] if n < len(model) else ""})
+    sessioned = stage.get("sessions", False)
+    diverged = False
+    for o, a, b in zip(ops, impl, model):
+        if not o:
+            continue
+        if sessioned and " reset" in o[:16]:
+            diverged = False
+        if a == b or diverged:
+            continue
+        if sessioned:
+            diverged = True
+            if differs(pid, a, b):
+                out.append({"op": o, "impl": a, "model": b, "session_op": True})
+            else:
+                other += 1
+        else:
+            out.append({"op": o, "impl": a, "model": b})
+        if len(out) >= 25:
+            break
+    return out, other
 
 
 def tolerated(pid, op, impl, model):
